@@ -95,12 +95,25 @@ def run(ctx):
                 tys = list(types) if is_state or r.random() < 0.4 else list(types) + [TY['Box']]
                 colors = sorted(set(r.sample([0, 1, 2, 3, 4], r.randint(1, 5))))
                 shape = (r.randint(2, 4), r.choice([3, 5]) if not is_state else r.randint(2, 5))
-                space = rsuite.state_space(tys, colors, shape) if is_state else rsuite.obs_space(tys, colors, shape)
+                # a space is the SET of its types: declaring one twice, or declaring the always-present NoneGridObject / Hidden explicitly,
+                # in any order, is the same space and must get the same encodings
+                decl = list(tys)
+                if r.random() < 0.35:
+                    decl += r.sample(tys, r.randint(1, min(2, len(tys))))
+                    if r.random() < 0.6:
+                        decl.append(TY['NoneGridObject'])
+                    if not is_state and r.random() < 0.6:
+                        decl.append(TY['Hidden'])
+                    r.shuffle(decl)
+                    ctx.count('space declaration', 'redundant')
+                else:
+                    ctx.count('space declaration', 'plain')
+                space = rsuite.state_space(decl, colors, shape) if is_state else rsuite.obs_space(decl, colors, shape)
                 conv = (lambda cs: wire.mkstate(cs)) if is_state else rsuite.as_obs
                 objs = space_objects(tys, colors, is_state)
                 for kind in rsuite.KINDS:
                     rep = (rsuite.make_state_representation if is_state else rsuite.make_observation_representation)(kind, space)
-                    base = {'types': tys, 'colors': colors, 'shape': shape, 'kind': kind, 'is_state': is_state}
+                    base = {'types': tys, 'declared': decl, 'colors': colors, 'shape': shape, 'kind': kind, 'is_state': is_state}
                     # ---- per-object encodings: every object of the space, in the hand and in two different cells
                     encs = {}
                     for ob in objs:
